@@ -58,16 +58,20 @@ def c20b(ctx, tu):
                 yb, ye = yields[0]
                 l = cfg.loop_containing(fn, yb)
                 s = str(ye.get("x"))
-                if l is None or l["kind"] != "rangefor":
-                    bad = "co_yield is not inside a range-for over the yield list"
+                if l is None:
+                    bad = "co_yield is not inside a loop over the yield list"
                 elif l["exit_edges"]:
                     bad = "the yield loop can be left before every CO_YIELD has been produced"
                 elif "yield_expr_base" not in s or "::expr" not in s:
                     bad = "co_yield does not yield the current list element's expression"
                 else:
-                    rng = [e for _, e in evs if e["e"] == "decl" and e.get("name", "").startswith("__range")]
-                    if not rng or "co_return_handler_t" not in str(rng[0].get("init")) or "::yields" not in str(rng[0].get("init")):
+                    # forwards over the handler's own list: a range-for over *yields, or begin()/++ on it
+                    inits = str([e.get("init") for _, e in evs if e["e"] == "decl"])
+                    allev = str([{k: v for k, v in e.items() if k != "loc"} for _, e in evs])
+                    if "co_return_handler_t" not in inits or "::yields" not in inits:
                         bad = "the loop does not range over the handler's own yield list"
+                    elif "operator--" in allev or "rbegin" in allev:
+                        bad = "the yield list is not traversed forwards (declaration order)"
                     # co_return comes after the loop
                     rb = rets[0][0]
                     if bad is None and rb not in cfg.reach(fn, l["after"]):
